@@ -6,6 +6,8 @@
 //! `impl.out` (the implementation's answers) and `report.json`.
 
 mod engines {
+	pub mod chunker;
+	pub mod output;
 	pub mod encoding;
 	pub mod transcode;
 	pub mod tomlorder;
@@ -17,6 +19,8 @@ mod props {
 	pub mod c06;
 	pub mod c10;
 	pub mod c12;
+	pub mod c03;
+	pub mod c08;
 	pub mod c07;
 	pub mod c11;
 }
@@ -61,6 +65,13 @@ fn main() {
 			"C12" => {
 				props::c12::run(&mut out, &mut rng.fork(), thorough);
 			}
+			"C03" => {
+				engines::chunker::run(&mut out, &mut rng.fork(), thorough);
+				props::c03::run(&mut out, &mut rng.fork(), thorough);
+			}
+			"C08" => {
+				props::c08::run(&mut out, &mut rng.fork(), thorough);
+			}
 			"C07" => {
 				engines::encoding::run(&mut out, &mut rng.fork(), thorough);
 				props::c07::run(&mut out, &mut rng.fork(), thorough);
@@ -75,6 +86,39 @@ fn main() {
 			}
 		}
 		out.write(dir).expect("write results");
+		return;
+	}
+	if args.len() >= 3 && args[1] == "chunker-after-error" {
+		// Calls Chunker::next again after it returned an Err item.
+		let data = util::unhex(&args[2]).expect("hex");
+		let mut it = xt::verif::yaml_chunker(Box::new(std::io::Cursor::new(data)));
+		loop {
+			match it.next() {
+				Some(Ok((t, _))) => println!("doc {:?}", t),
+				Some(Err(e)) => {
+					println!("err {e}; calling next() again…");
+					println!("second call returned {:?}", it.next().map(|r| r.map_err(|e| e.to_string())));
+					return;
+				}
+				None => {
+					println!("end");
+					return;
+				}
+			}
+		}
+	}
+	if args.len() >= 6 && args[1] == "x" {
+		// xtverif x <from|auto> <to> <slice|reader|reader1> <hex>[/<hex>...]: one Translator, one call per hex.
+		let from = xtapi::Fmt::from_name(&args[2]);
+		let to = xtapi::Fmt::from_name(&args[3]).expect("to");
+		let supply = match args[4].as_str() {
+			"slice" => xtapi::Supply::Slice,
+			"reader1" => xtapi::Supply::Reader(vec![1]),
+			_ => xtapi::Supply::Reader(vec![]),
+		};
+		let inputs: Vec<_> = args[5].split('/').map(|h| (util::unhex(h).expect("hex"), supply.clone(), from)).collect();
+		let (results, out) = xtapi::translate_many(&inputs, to);
+		println!("results={results:?}\noutput={}\ntext={:?}", util::hex(&out), String::from_utf8_lossy(&out));
 		return;
 	}
 	eprintln!("usage: xtverif run <Cnn> <quick|thorough> <seed> <outdir>");
